@@ -197,12 +197,13 @@ def SideBuilt (sd : Side) (T S : Bytes) (o : Option UInt8) : Prop :=
       sd.delim ∈ [97, 99, 103, 116] ∧ (T ≠ [] → o = some sd.delim)))
 
 theorem SideBuilt.mono {sd : Side} {T S : Bytes} {o o' : Option UInt8} (h : SideBuilt sd T S o)
-    (ho : o = some sd.delim → o' = some sd.delim) : SideBuilt sd T S o' := by
+    (ho : sd.delim ∈ [97, 99, 103, 116] → o = some sd.delim → o' = some sd.delim) :
+    SideBuilt sd T S o' := by
   obtain ⟨h1, h2, h3⟩ := h
   refine ⟨h1, h2, ?_⟩
   rcases h3 with h3 | ⟨a, b, c, d, e, f⟩
   · exact Or.inl h3
-  · exact Or.inr ⟨a, b, c, d, e, fun hT => ho (f hT)⟩
+  · exact Or.inr ⟨a, b, c, d, e, fun hT => ho e (f hT)⟩
 
 theorem acgt_comp_comp : ∀ d ∈ ([97, 99, 103, 116] : List UInt8),
     nucComplement (nucComplement d) = d ∧ d ≠ 0 := by decide
@@ -407,5 +408,32 @@ theorem built_core_rc (ms : List Marker) (n n' : Nat) (mk : Marker) (P pf cb pr 
   simp only [machine, hpos, if_true, and_self, hem, bind, Except.bind, pure, Except.pure]
   simp
   omega
+
+/-- a declared tag pair read without error identifies its sample, under the three modes -/
+theorem constructed_read_ident (mk : Marker) (s : Sample) (tagF tagR : Bytes)
+    (hdecl : lookupPair mk.samples tagF tagR = some s) : (identify mk tagF tagR).pcr = some s := by
+  have hmem : s ∈ mk.samples := List.mem_of_find?_eq_some hdecl
+  have hp := List.find?_some hdecl
+  simp only [Bool.and_eq_true, decide_eq_true_eq] at hp
+  have hF : tagF ∈ mk.samples.map (·.ftag) := List.mem_map.2 ⟨s, hmem, hp.1⟩
+  have hR : tagR ∈ mk.samples.map (·.rtag) := List.mem_map.2 ⟨s, hmem, hp.2⟩
+  unfold identify
+  by_cases hf0 : tagF = [] <;> by_cases hr0 : tagR = []
+  · simp [hf0, hr0] at hdecl ⊢; exact hdecl
+  · simp only [hf0, ne_eq, not_true_eq_false, if_false, hr0, not_false_eq_true, if_true,
+      propose_declared mk.rmode _ tagR hr0 hR]
+    rw [← hf0]; exact hdecl
+  · simp only [hr0, ne_eq, not_true_eq_false, if_false, hf0, not_false_eq_true, if_true,
+      propose_declared mk.fmode _ tagF hf0 hF]
+    rw [← hr0]; exact hdecl
+  · simp only [hf0, hr0, ne_eq, not_false_eq_true, if_true,
+      propose_declared mk.fmode _ tagF hf0 hF, propose_declared mk.rmode _ tagR hr0 hR]
+    exact hdecl
+
+theorem rc_getLast_eq (l : Bytes) : (rc l).getLast? = l.head?.map nucComplement := by
+  cases l <;> simp [rc]
+
+theorem rc_head_eq (l : Bytes) : (rc l).head? = l.getLast?.map nucComplement := by
+  simp [rc, List.head?_reverse]
 
 end ObiVerif.Demux
